@@ -433,6 +433,80 @@ pub fn apply_edit(cx: &mut Cx, nm: &mut Namer, file: &mut A2lFile) -> Option<Str
     }
 }
 
+/// canonical rendering of IF_DATA content: values only (no line / uid / offsets), map keys sorted
+pub fn ifdata_repr(d: &GenericIfData, out: &mut String) {
+    use std::fmt::Write;
+    match d {
+        GenericIfData::None => out.push_str("None"),
+        GenericIfData::Char(_, v) => write!(out, "Char{v:?}").unwrap(),
+        GenericIfData::Int(_, v) => write!(out, "Int{v:?}").unwrap(),
+        GenericIfData::Long(_, v) => write!(out, "Long{v:?}").unwrap(),
+        GenericIfData::Int64(_, v) => write!(out, "Int64{v:?}").unwrap(),
+        GenericIfData::UChar(_, v) => write!(out, "UChar{v:?}").unwrap(),
+        GenericIfData::UInt(_, v) => write!(out, "UInt{v:?}").unwrap(),
+        GenericIfData::ULong(_, v) => write!(out, "ULong{v:?}").unwrap(),
+        GenericIfData::UInt64(_, v) => write!(out, "UInt64{v:?}").unwrap(),
+        GenericIfData::Float(_, v) => write!(out, "Float({v:?})").unwrap(),
+        GenericIfData::Double(_, v) => write!(out, "Double({v:?})").unwrap(),
+        GenericIfData::String(_, v) => write!(out, "String({v:?})").unwrap(),
+        GenericIfData::EnumItem(_, v) => write!(out, "Enum({v})").unwrap(),
+        GenericIfData::Array(items) | GenericIfData::Sequence(items) | GenericIfData::Struct(_, _, items) | GenericIfData::Block { items, .. } => {
+            out.push_str(match d {
+                GenericIfData::Array(_) => "Array[",
+                GenericIfData::Sequence(_) => "Seq[",
+                GenericIfData::Struct(..) => "Struct[",
+                _ => "Block[",
+            });
+            for (i, it) in items.iter().enumerate() {
+                if i > 0 {
+                    out.push_str(", ");
+                }
+                ifdata_repr(it, out);
+            }
+            out.push(']');
+        }
+        GenericIfData::TaggedStruct(map) | GenericIfData::TaggedUnion(map) => {
+            out.push_str(if matches!(d, GenericIfData::TaggedStruct(_)) { "TS{" } else { "TU{" });
+            let mut keys: Vec<&String> = map.keys().collect();
+            keys.sort();
+            for k in keys {
+                for item in &map[k] {
+                    write!(out, "{}{}:", if item.is_block { "block " } else { "" }, item.tag).unwrap();
+                    ifdata_repr(&item.data, out);
+                    out.push_str("; ");
+                }
+            }
+            out.push('}');
+        }
+    }
+}
+
+fn ifdata_list_diff(a: &[IfData], b: &[IfData]) -> Option<String> {
+    for (i, (x, y)) in a.iter().zip(b.iter()).enumerate() {
+        if x != y {
+            let mut rx = String::new();
+            let mut ry = String::new();
+            if let Some(d) = &x.ifdata_items {
+                ifdata_repr(d, &mut rx);
+            }
+            if let Some(d) = &y.ifdata_items {
+                ifdata_repr(d, &mut ry);
+            }
+            let pos = rx.bytes().zip(ry.bytes()).position(|(p, q)| p != q).unwrap_or(rx.len().min(ry.len()));
+            let mut s = pos.saturating_sub(80);
+            while !rx.is_char_boundary(s) {
+                s -= 1;
+            }
+            let mut s2 = pos.saturating_sub(80).min(ry.len());
+            while !ry.is_char_boundary(s2) {
+                s2 -= 1;
+            }
+            return Some(format!("IF_DATA[{i}] valid {} vs {}: ...{} vs ...{}", x.ifdata_valid, y.ifdata_valid, crate::runner::clip(&rx[s..], 260), crate::runner::clip(&ry[s2..], 260)));
+        }
+    }
+    None
+}
+
 /// where two models differ (best effort, for the violation detail)
 pub fn model_diff(a: &A2lFile, b: &A2lFile) -> String {
     let mut out = Vec::new();
@@ -493,6 +567,21 @@ pub fn model_diff(a: &A2lFile, b: &A2lFile) -> String {
         if ma.variant_coding != mb.variant_coding {
             out.push("VARIANT_CODING".to_string());
         }
+        if let Some(d) = ifdata_list_diff(&ma.if_data, &mb.if_data) {
+            out.push(format!("MODULE {d}"));
+        }
+        macro_rules! ifdata_in {
+            ($($f:ident),*) => { $(
+                for (x, y) in ma.$f.iter().zip(mb.$f.iter()) {
+                    if x.if_data != y.if_data {
+                        if let Some(d) = ifdata_list_diff(&x.if_data, &y.if_data) {
+                            out.push(format!("{} {}: {d}", stringify!($f), x.get_name()));
+                        }
+                    }
+                }
+            )* };
+        }
+        ifdata_in!(axis_pts, blob, characteristic, frame, function, group, instance, measurement);
         cmp_lists!(ma, mb, axis_pts, blob, characteristic, compu_method, compu_tab, compu_vtab, compu_vtab_range, frame, function, group, if_data, instance, measurement, record_layout, transformer, typedef_axis, typedef_blob, typedef_characteristic, typedef_measurement, typedef_structure, unit, user_rights);
     }
     if out.is_empty() {
